@@ -171,14 +171,16 @@ end
 
 /-- `Pattern.match` at `node`: structural match, output values, removability, the `guardTag`
 condition function. -/
-def matchAt (g : Graph) (r : Rule) (node : Node) : Option Match :=
+def matchAt (g : Graph) (r : Rule) (node : Node) (ghost : List Name := []) : Option Match :=
   match matchNode g r.pat 1000 {} r.pat.root node with
   | none => none
   | some st =>
     match r.pat.outputs.mapM (fun o => (st.vb.lookup o).bind id) with
     | none => none
     | some outs =>
-      if r.removeNodes && !(validToReplace g st.nodes outs) then none
+      -- `ghost`: values still read by replacement nodes that were built and then discarded (`uses()` sees them)
+      let interior := ((g.nodes.filter fun n => st.nodes.contains n.id).flatMap (·.outputs)).filter fun v => !(outs.contains v)
+      if r.removeNodes && (!(validToReplace g st.nodes outs) || interior.any (ghost.contains ·)) then none
       else
         let tagged := match node.mprops.lookup RULE_NAME_TAG with
           | some t => (t.splitOn ", ").contains r.name
@@ -415,15 +417,22 @@ def newOverload (funcs : List Func) (domain name : String) : Nat → Nat → Str
     if funcs.any (fun fn => fn.domain == domain && fn.name == name && fn.overload == toString k)
     then newOverload funcs domain name f (k + 1) else toString k
 
-/-- `{**model.graph.opset_imports, **graph_or_function.opset_imports}` (fix 35ad500): the model's
-imports, overridden by the container's own, then the container-only domains. -/
-def mergeOpsets (main lo : List (String × Nat)) : List (String × Nat) :=
-  main.map (fun kv => (kv.1, (lo.lookup kv.1).getD kv.2)) ++
-    lo.filter (fun kv => !(main.any (fun mv => mv.1 == kv.1)))
+/-- Python `{**base, **over}`: `base`'s keys in order with `over`'s values where it has the key,
+then the `over`-only keys. -/
+def mergeOpsets (base over : List (String × Nat)) : List (String × Nat) :=
+  base.map (fun kv => (kv.1, (over.lookup kv.1).getD kv.2)) ++
+    over.filter (fun kv => !(base.any (fun mv => mv.1 == kv.1)))
+
+/-- The imports an extracted function's own are filtered from (fixes 35ad500, 04d2d07): inside a
+model-local *function* the function's imports override the model's; in a graph or subgraph the
+model's imports override the container's own dict (which may hold default versions recorded by
+`_update_opset_imports`). -/
+def parentOpsets (isFunc : Bool) (main lo : List (String × Nat)) : List (String × Nat) :=
+  if isFunc then mergeOpsets main lo else mergeOpsets lo main
 
 /-- Result: the call node with its overload set, and the new function; `none` = the code raises.
-`parentOpsets`: the imports the function's own are filtered from — `mergeOpsets model container`
-since 35ad500, the container's alone before. -/
+`parentOpsets`: the imports the function's own are filtered from (see `OV.C07.parentOpsets`; the
+container's alone before 35ad500, `mergeOpsets model container` before 04d2d07). -/
 def asFunction (g : Graph) (parentOpsets : List (String × Nat)) (funcs : List Func) (m : Match)
     (newNodes : List Node) : Option (Node × Func) :=
   match newNodes with
@@ -490,7 +499,7 @@ inductive Step where
 
 def tryRule (kind : Kind) (r : Rule) (st : PassSt) (lo : List (String × Nat)) (g : Graph) (node : Node) :
     Except Err Step :=
-  match matchAt g r node with
+  match matchAt g r node st.ghost with
   | none => .ok (.noMatch st lo)
   | some m =>
     let st := { st with calls := st.calls + 1 }
@@ -523,7 +532,7 @@ def tryRule (kind : Kind) (r : Rule) (st : PassSt) (lo : List (String × Nat)) (
             let g := gReg
             let res : Except Err (PassSt × List Node) :=
               if r.asFunction then
-                match asFunction g (mergeOpsets st.mainOpsets lo1) st.funcs m δ.newNodes with
+                match asFunction g (parentOpsets (kind == .func) st.mainOpsets lo1) st.funcs m δ.newNodes with
                 | none => .error .asFunction
                 | some (call, fn) => .ok ({ st with funcs := st.funcs ++ [fn] }, [call])
               else .ok (st, δ.newNodes)
